@@ -30,6 +30,12 @@ def main():
     os.makedirs(dst, exist_ok=True)
     patch = os.path.join(src, f"patch{x}.diff")
     demo = os.path.join(src, f"demo{x}.py")
+    # run the demonstration from a neutral directory: python puts the script's directory first on sys.path, so a
+    # demo lying inside the sub-agent's (patched) worktree would import that tree instead of the scratch worktree
+    import tempfile
+    neutral = tempfile.mkdtemp(prefix="confirm-demo-")
+    patch = shutil.copy(patch, os.path.join(neutral, "patch.diff"))
+    demo = shutil.copy(demo, os.path.join(neutral, "demo.py"))
     wt = f"/tmp/confirm-{name}-{os.getpid()}"
     sh(f"/verif/tools/mkscratch.sh {wt}")
     env = dict(os.environ, PYTHONPATH=wt, PYTHONDONTWRITEBYTECODE="1", PYTHONHASHSEED="0")
@@ -68,6 +74,7 @@ def main():
         with open(os.path.join(dst, "meta.json"), "w") as f:
             json.dump(meta, f, indent=1)
         sh(f"/verif/tools/rmscratch.sh {wt}")
+        shutil.rmtree(neutral, ignore_errors=True)
         print(json.dumps(meta)[:600])
 
 
